@@ -30,6 +30,14 @@ func (fr *FuncRun) execLookup(f *Frame, st *State, x *ssa.Lookup) {
 	in := fr.def(sBool, and(not(eq(mv.T, "0")), sel(sel(dom, mv.T), kt)))
 	rv := Val{T: fr.def(vs, ite(in, sel(sel(val, mv.T), kt), w.Zero(mt.Elem()))), S: vs}
 	fr.rangeAssume(st, rv.T, mt.Elem())
+	if _, inner := mt.Elem().Underlying().(*types.Map); inner && mv.Prov != nil && fr.eng.checkGuards {
+		// a map held as an entry of a lock-guarded map is guarded by the same lock: a reference to it that is kept
+		// after the lock is released still reaches shared state
+		rv.Prov = mv.Prov
+		if mv.Prov.EntriesReplaced {
+			rv.Prov = &Prov{MuAddr: mv.Prov.MuAddr, Field: mv.Prov.Field + "[]", MuText: mv.Prov.MuText, Replaced: true}
+		}
+	}
 	if x.CommaOk {
 		f.regs[x] = Val{Tup: []Val{rv, {T: in, S: sBool}}}
 	} else {
